@@ -26,7 +26,8 @@ SelTI(sel) == (sel \div 4) % 2
 SelRpl(sel) == sel % 4
 InTable(sel, limit) == SelIndex(sel) * 8 + 7 <= limit
 
-(* ltr (SDM "LTR"): selector must be global, inside the GDT, an available 64-bit TSS, present *)
+(* ltr (SDM "LTR"): selector must be global, inside the GDT, an available 64-bit TSS, present; on success the     *)
+(* processor marks the descriptor busy in memory (type 9 -> 11), so a second ltr of the same selector faults      *)
 LoadTr(gdt, gdtLimit, sel) ==
     IF SelIndex(sel) = 0 \/ SelTI(sel) = 1 THEN [k |-> "GP", base |-> ZeroW, limit |-> 0]
     ELSE IF SelIndex(sel) * 8 + 15 > gdtLimit THEN [k |-> "GP", base |-> ZeroW, limit |-> 0]
